@@ -568,6 +568,8 @@ theorem bwr_step (s : JS) (l : Label) (s' : JS) (hinv : BoundWhileRolling s) (h 
       split at h
       · cases h; exact hinv
       · split at h
+        · cases h; exact hinv
+        split at h
         all_goals
           cases h
           intro k ek hek hb hng hroll
